@@ -3,13 +3,14 @@
 # Prints per patch the REPORT lines (a behaviour-preserving patch should give none).
 set -u
 WT=$1
+REPO=${REPO:-/repo}   # REPO=<worktree> analyses the patches in the worktree itself, leaving /repo alone
 cd /verif
 export GOFLAGS=-mod=mod GOPROXY=off GOSUMDB=off GOTOOLCHAIN=local GOWORK=off
-(cd tools/resolint && go build -o /verif/bin/resolint .) || exit 2
+[ -n "${RESOLINT_NOBUILD:-}" ] || (cd tools/resolint && go build -o /verif/bin/resolint .) || exit 2   # RESOLINT_NOBUILD=1: use bin/resolint as it is (development: the source is being edited)
 for p in "$WT"/REFACTOR/patch_*.diff; do
   [ -f "$p" ] || continue
-  if ! git -C /repo apply "$p" 2>/tmp/refac_apply.err; then echo "== $p: DOES NOT APPLY: $(head -2 /tmp/refac_apply.err)"; continue; fi
-  out=$(for c in C01 C02 C03 C04 C05 C06 C07 C08 C09 C10 C11 C12 C13 C14 C15 C16 C17 C18 C19 C20; do echo $c; done | xargs -P 5 -I{} bash -c '/verif/bin/resolint -repo /repo -verif /verif -prop {} -no-evidence 2>&1 | grep -E "^(REPORT|resolint:)" | sed "s/^/{} /"')
-  git -C /repo checkout -- . ; git -C /repo clean -fdq -- . >/dev/null 2>&1
+  if ! git -C $REPO apply "$p" 2>/tmp/refac_apply.err; then echo "== $p: DOES NOT APPLY: $(head -2 /tmp/refac_apply.err)"; continue; fi
+  out=$(for c in C01 C02 C03 C04 C05 C06 C07 C08 C09 C10 C11 C12 C13 C14 C15 C16 C17 C18 C19 C20; do echo $c; done | REPO=$REPO RESOLINT_BIN=${RESOLINT_BIN:-/verif/bin/resolint} xargs -P 5 -I{} bash -c '${RESOLINT_BIN:-/verif/bin/resolint} -repo $REPO -verif /verif -prop {} -no-evidence 2>&1 | grep -E "^(REPORT|resolint:)" | sed "s/^/{} /"')
+  git -C $REPO checkout -- . ; git -C $REPO clean -fdq -e REFACTOR -- . >/dev/null 2>&1
   if [ -z "$out" ]; then echo "== $(basename $p): silent"; else echo "== $(basename $p): ALARMS"; printf '%s\n' "$out" | sort | cut -c1-400 | head -30; fi
 done
